@@ -276,3 +276,55 @@ func VH_C06_rejected_data() {
 	vAssert("O2-genuine-still-delivered", vAll(e2 == nil, len(p2) == 1, vBytesEq(p2, s.text)))
 	vReach("end")
 }
+
+// H-C02-unencrypted: text that arrives in the clear is returned only together
+// with a received-unencrypted event whenever the conversation is not in plain
+// text state or policy requires encryption — for every message state,
+// whitespace-tag state and policy value, with and without a whitespace tag.
+//
+// vh: prop=C02 expect=end,flagged,unflagged unwind=80
+func VH_C02_unencrypted() {
+	pol := policies(vU32("pol"))
+	vAssume(vAny(int(pol)&int(allowV2) == int(allowV2), int(pol)&int(allowV3) == int(allowV3)))
+	vAssume(int(pol)&int(whitespaceStartAKE) == 0) // (starting an AKE from the tag is C07's subject)
+	c := vhPolicyConv(pol)
+	ev := &vhEvents{}
+	c.messageEventHandler = ev
+	c.securityEventHandler = ev
+	c.msgState = msgState(vChoose("msgState", 3))
+	c.whitespaceState = whitespaceState(vChoose("wsState", 3))
+	if c.msgState != plainText {
+		c.version = otrV3{}
+	}
+	n := 1 + vChoose("n", 3)
+	text := vBytes("text", n)
+	for i := range text {
+		vAssume(vAll(text[i] != ' ', text[i] != '\t', text[i] != '?'))
+	}
+	msg := makeCopy(text)
+	tagged := vChoose("tagged", 2) == 1
+	if tagged {
+		msg = append(msg, whitespaceTagHeader...)
+		msg = append(msg, otrV3{}.whitespaceTag()...)
+	}
+	plain, toSend, err := c.Receive(msg)
+	vObserve("clear", plain, len(toSend), err == nil, len(ev.msg))
+	vAssert("text-returned", vAll(err == nil, len(plain) == n, vBytesEq(plain, text)))
+	due := c.msgState != plainText || int(pol)&int(requireEncryption) == int(requireEncryption)
+	flagged := false
+	for i := range ev.msg {
+		if ev.msg[i] == MessageEventReceivedMessageUnencrypted {
+			flagged = true
+			vAssert("flag-carries-text", vAll(len(ev.msgText[i]) == n, vBytesEq(ev.msgText[i], text)))
+		}
+	}
+	if due {
+		vReach("flagged")
+		vAssert("unencrypted-is-flagged", flagged)
+	} else {
+		vReach("unflagged")
+		vAssert("no-spurious-flag", !flagged)
+	}
+	vAssert("state-kept", vAll(len(toSend) == 0))
+	vReach("end")
+}
